@@ -89,8 +89,9 @@ def main():
             meta["confirmed"]["baseline_passes_with_change"] = not missing
             meta["confirmed"]["baseline_missing"] = missing[:5]
             env = dict(os.environ)
-            rc1, o1 = sh(["/venv/bin/python", os.path.join(out, "demo.py"), wt], env=env, timeout=1200)
-            rc0, o0 = sh(["/venv/bin/python", os.path.join(out, "demo.py"), clean], env=env, timeout=1200)
+            # the tree is given both as argv[1] and on PYTHONPATH (demos of either convention)
+            rc1, o1 = sh(["/venv/bin/python", os.path.join(out, "demo.py"), wt], env=dict(env, PYTHONPATH=wt), timeout=1200)
+            rc0, o0 = sh(["/venv/bin/python", os.path.join(out, "demo.py"), clean], env=dict(env, PYTHONPATH=clean), timeout=1200)
             meta["confirmed"]["demo_exit_with_change"] = rc1
             meta["confirmed"]["demo_exit_without_change"] = rc0
             meta["confirmed"]["demo_output_with_change"] = o1[-600:]
